@@ -87,6 +87,7 @@ func (p *Parser) ParseFile(filename string, varPool *VarPool) (*MetaData, []*Bui
 	}
 
 	// The output belongs to the same build configurations as its source.
+	var plusBuild constraint.Expr
 	for _, group := range astFile.Comments {
 		if group.Pos() >= astFile.Package {
 			break
@@ -94,8 +95,17 @@ func (p *Parser) ParseFile(filename string, varPool *VarPool) (*MetaData, []*Bui
 		for _, c := range group.List {
 			if constraint.IsGoBuild(c.Text) {
 				metaData.BuildConstraint = c.Text
+			} else if expr, err := constraint.Parse(c.Text); err == nil && constraint.IsPlusBuild(c.Text) {
+				// a file that still spells its constraint "// +build": the lines are and-ed
+				if plusBuild != nil {
+					expr = &constraint.AndExpr{X: plusBuild, Y: expr}
+				}
+				plusBuild = expr
 			}
 		}
+	}
+	if metaData.BuildConstraint == "" && plusBuild != nil {
+		metaData.BuildConstraint = "//go:build " + plusBuild.String()
 	}
 
 	slog.Debug("kessoku package", "kessokuPkg", kessokuPkg)
